@@ -216,6 +216,11 @@ where
     fn verif_view(&self) -> Option<verif_hooks_kkt::KktView<T>> {
         Some(DirectLDLKKTSolver::verif_view(self))
     }
+
+    #[cfg(feature = "verif-hooks")]
+    fn verif_ldl_perm(&self) -> Option<Vec<usize>> {
+        self.ldlsolver.verif_ldl_perm()
+    }
 }
 
 impl<T> DirectLDLKKTSolver<T>
